@@ -89,8 +89,8 @@ func (e *Enc) script(o *Obligation) string {
 				ctor = "iface.int"
 			}
 		}
-		if strings.Contains(body.String(), "iface.typ") {
-			b.WriteString(fmt.Sprintf("(assert (forall ((v Iface)) (! (=> (= (iface.typ v) %d) ((_ is %s) v)) :pattern ((iface.typ v)))))\n", ci, ctor))
+		if strings.Contains(body.String(), "iface.wf") {
+			b.WriteString(fmt.Sprintf("(assert (forall ((v Iface)) (! (=> (and (iface.wf v) (= (iface.typ v) %d)) ((_ is %s) v)) :pattern ((iface.wf v)))))\n", ci, ctor))
 		}
 	}
 	for _, a := range asserts {
@@ -122,9 +122,9 @@ func (e *Enc) modelTerms() []string {
 		case tv.Sort == "Int" || tv.Sort == "Bool" || strings.HasPrefix(tv.Sort, "(_ BitVec"):
 			out = append(out, tv.T)
 		case tv.Sort == "Str":
-			out = append(out, fmt.Sprintf("(str.len %s)", tv.T))
+			out = append(out, fmt.Sprintf("(gs.len %s)", tv.T))
 			for i := 0; i < 6; i++ {
-				out = append(out, fmt.Sprintf("(str.at %s %s)", tv.T, e.st.idxLit(int64(i))))
+				out = append(out, fmt.Sprintf("(gs.at %s %s)", tv.T, e.st.idxLit(int64(i))))
 			}
 		case tv.Sort == "Slice":
 			out = append(out, fmt.Sprintf("(sl.len %s)", tv.T))
@@ -164,7 +164,14 @@ func runSolver(ctx context.Context, sp solverSpec, file string, timeoutS int) so
 	cmd := exec.CommandContext(cctx, args[0], append(args[1:], file)...)
 	out, _ := cmd.CombinedOutput()
 	ms := time.Since(t0).Milliseconds()
-	s := strings.TrimSpace(string(out))
+	var kept []string
+	for _, l := range strings.Split(string(out), "\n") {
+		if strings.HasPrefix(l, "WARNING") || strings.TrimSpace(l) == "" {
+			continue
+		}
+		kept = append(kept, l)
+	}
+	s := strings.TrimSpace(strings.Join(kept, "\n"))
 	first := s
 	if i := strings.Index(s, "\n"); i >= 0 {
 		first = s[:i]
@@ -189,6 +196,9 @@ func solveFile(file string, timeoutS int, wantSat bool) solveResult {
 	ctx := context.Background()
 	quick := timeoutS / 4
 	if quick < 3 {
+		quick = 3
+	}
+	if wantSat && quick > 3 {
 		quick = 3
 	}
 	r := runSolver(ctx, solvers[0], file, quick)
@@ -249,7 +259,7 @@ func solveAll(items []*workItem, outDir string, timeoutS int, workers int) {
 				file := filepath.Join(outDir, sanitizeFile(o.Name)+".smt2")
 				os.WriteFile(file, []byte(it.script), 0o644)
 				o.Script = file
-				r := solveFile(file, timeoutS, o.Cover)
+				r := solveFile(file, timeoutS, o.Cover || it.quickOnly)
 				o.Result, o.Backend, o.Ms = r.result, r.backend, r.ms
 				if r.result == "sat" || r.result == "error" {
 					o.Model = r.output
@@ -265,8 +275,9 @@ func solveAll(items []*workItem, outDir string, timeoutS int, workers int) {
 }
 
 type workItem struct {
-	o      *Obligation
-	script string
+	o         *Obligation
+	script    string
+	quickOnly bool // not claimed: one short solver attempt only
 }
 
 func sanitizeFile(s string) string {
